@@ -33,3 +33,6 @@ axiom("axiom_fix_ran(ok, S, l, p)", "implies(ok, fixp(S, l, p))",
       "A-FIX-RAN (C08): at the end of an iteration of the propagation loop, if constraint p was executed without failure, the store row now equals the box it returned at every position of p, and either "
       "nothing changed (determinism: the same input gives the same output) or p is not the linear equality (idempotence, C14: a second consecutive call changes nothing; proved for 4 propagators, bounded for the others), then p is at a fixpoint on that row.")
 define("noalias(p)", "forall(k1, var_bounds[p, RG_START], var_bounds[p, RG_END], forall(k2, k1 + 1, var_bounds[p, RG_END], props_dom_indices[k1] != props_dom_indices[k2]))")
+axiom("axiom_fix_point(S, l, p)", "implies(fixp(S, l, p) and onpoint(S, l, p), rel_holds(p))",
+      "A-FIX-ACC (bridge C08 -> C01): a constraint that is at a fixpoint (re-executing it does not fail) on a row where all its variables are instantiated to sigma holds on sigma. "
+      "This is clause P3 of the propagator contracts (a ground tuple is rejected iff it violates the relation), proved per propagator; used as a named axiom because Fix is uninterpreted.")
